@@ -13,10 +13,13 @@ RULE = ("search: generated documents of nested blocks (block quotes, bullet/orde
         "topic/sidebar/admonition/rubric/table/list-table titles and parsed-literal (inline_text), line-block, role "
         "(parse_directive_block), compound/container, image/figure/code-block - each with 0-2 blank lines before the body, at top "
         "level and nested) in which every leaf "
-        "(paragraph, heading, fenced/indented code, target, unknown role, unknown directive, unknown option) carries a unique "
-        "marker; oracle: node.line == 1-based line of the construct in its file and node.source == that file, for "
+        "(paragraph, heading, fenced/indented code, target, unknown role, unknown directive, unknown option, Markdown table, "
+        "definition / field list, footnote definition, block break, line comment, html / math block, front matter) carries a "
+        "unique marker; oracle: node.line == 1-based line of the construct in its file and node.source == that file, for "
         "paragraph/title/section/rubric/literal_block/target/bullet_list/enumerated_list/list_item/block_quote/admonitions/"
-        "container, and the [myst.*] warnings naming a marker carry that line and file; "
+        "container/table/row/entry/attribution/topic/sidebar/compound/line_block/..., and the [myst.*] and ERROR-level warnings "
+        "naming a marker carry that line and file; the same documents (174 fixed + random) are built by Sphinx (dummy builder, one "
+        "project per batch) and every expected warning must be located at '<path of its file>:<true line>' (signatures sphinx:*); "
         "correspondence: the extracted Coq line model (Dir/Lines.v, which runs the C08 model of parse_directive_text on the "
         "printed directive content) predicts the line of every construct of the same documents; "
         "non-trivial = document with a directive, include or container at depth >= 2")
@@ -48,6 +51,7 @@ ORACLES = {
               "correspondence on unknown-role warnings written on the 1st..3rd line of a paragraph",
 }
 ASSUMPTIONS = ["docutils front end (publish with MyST Parser); line numbers observed directly after Parser.parse (no transforms)",
+               "Sphinx front end: only the location prefix 'path:line' of the warning stream is observed (dummy builder)",
                "option warnings of a directive may carry the line of the directive or of its option block opener "
                "(colon style reports the former, dash style the latter; both pinned by the repository's fixtures)"]
 
@@ -506,7 +510,8 @@ def expected_records(recs, main, files=None):
         elif b.kind in XLEAF:
             for rec_ in XLEAF[b.kind][2]:
                 tag, which, off = rec_[:3]
-                cell = tag in ("row", "entry") or (tag == "paragraph" and b.kind in ("table", "tabledir"))
+                # rows / entries carry their row's line; the cell paragraph has none of its own (open finding, pinned)
+                cell = tag == "paragraph" and b.kind in ("table", "tabledir")
                 extra = (("table-cell", b.mk),) if cell else (("docutils-code-block", b.mk),) if b.kind == "codeblock" else ()
                 if len(rec_) > 3 and rec_[3] == "inherit":
                     extra = (("docutils-code-block", b.mk),)      # the directive sets no line itself: own line or None
@@ -1344,13 +1349,45 @@ def replay(ctx, data):
     return 0 if ok else 1
 
 
-LEVEL_TEXT = ("Proof (Coq, induction on the nesting, no depth bound): for every document of the block grammar (leaf / quote / "
-              "list item / backtick or colon directive with no, colon-style or dash-style option block, with or without blank "
-              "lines before and after the body / plain div) the line the renderer arithmetic assigns to every construct "
-              "(token.map[0]+1, nested render +lineno, directive body at position+body_offset with body_offset from the C08 model "
-              "run on the printed content) equals its true line in the printed source (C04_lines_nested); warnings created with "
-              "line= carry it (C04_warning_lines); include arithmetic (C04_include_lines_partial / _refuted). Tie: the extracted "
-              "model predicts the lines of generated documents and is compared with the implementation on every run; the search "
-              "oracle checks node.line/source of every marked construct directly.")
-LEVEL_NOTE = ("Trusted: Coq kernel; transcription of the line arithmetic in coq/Dir/Lines.v; markdown-it token maps and fence "
-              "content, docutils admonition directives as oracles (O_map, O_fence_content, O_adm).")
+LEVEL_TEXT = ("Proof (Coq 8.16, 16 theorems, all closed under the global context), induction on the nesting with no depth bound. "
+              "IN FULL: for every document of the block grammar (leaf = paragraph / heading / fenced or indented code / target / "
+              "block break / line comment / html block / math block / table; block quote; list item; backtick or colon directive "
+              "with no, colon-style or dash-style option block and 0..3 blank lines before / 0..2 after the body; plain ::: div) the "
+              "line the renderer assigns to every construct - token.map[0]+1, nested render + lineno, directive body at "
+              "position + body_offset with body_offset computed by the C08 model of parse_directive_text run on the printed content, "
+              "the prepended-line trick of nested colon fences - equals the construct's true line in the printed source "
+              "(C04_lines_nested, C04_lines_at_depth; C04_lines_nested_c07: with the C07 tokenizer model and a class without "
+              "arguments no premise about the tokenizer remains, via C04_parse_ok_when); warnings created with line= carry it "
+              "(C04_warning_lines); inline constructs carry the line of their block (C04_inline_lines: the reading of 'true line' "
+              "for inline content, markdown-it gives inline tokens no map); the other mock methods: block_quote body and "
+              "attribution, get_source_and_line, parse_directive_block (C04_mock_methods_src). "
+              "TIED TO REGENERATED CODE: every arithmetic expression the model uses is regenerated on each run from "
+              "mdit_to_docutils/base.py and mocking.py into coq/Gen/LinesSrc.v (17 sites) and coq/Dir/Lines.v computes through them "
+              "(C04_arithmetic_src, C04_mock_methods_src); the directive splitter the model runs is the one regenerated from "
+              "parsers/directives.py and proved equal to the C08 model (C04_splitter_src) - a +1 edit at any site breaks a proof "
+              "obligation. "
+              "OPEN FINDINGS, each characterised exactly and reproduced on every run: (1) line:include:+1 - everything in an "
+              "{include}d file is reported at true line + 1 (C04_include_lines_offset; C04_include_lines_partial is what holds, "
+              "C04_include_lines_refuted the counterexample); (2) line:dir-firstline-body - a directive without arguments whose first "
+              "line is body text places its body 1 - <option lines> too low (C04_first_line_body_offset / _refuted); "
+              "(3) line:directive-title:+1 - inline text of directive titles at directive line + 1 (C04_directive_title_offset); "
+              "(4) line:parsed-literal, (5) line:contents-topic:-1 - docutils' own arithmetic written for rST offsets; "
+              "(6) line:table-cell - cell paragraphs of Markdown tables have no line (pinned by the gettext fixtures). "
+              "C04_include_start_after_char_index_refuted documents the repaired :start-after: defect. "
+              "Tie checked on every run: (a) the regeneration above; (b) differential correspondence - the extracted model "
+              "predicts the line of every construct of generated nested documents (and of documents {include}d from a file), compared "
+              "with the doctree of the implementation; (c) direct oracle - generated documents with unique markers, node.line / "
+              "node.source / warning line and file against positions known by construction, through the docutils front end and "
+              "(warnings: 'path:line') through Sphinx builds.")
+LEVEL_NOTE = ("Trusted base: Coq kernel (no axioms); gen/c04_linessrc.py (structural site location, fail-closed; mapping Python int -> Z, "
+              "token.map[i] -> parameter, self._x -> parameter, `x or y` on an optional int, str.count -> count_nl_upto) and "
+              "gen/c08_dirsrc.py with coq/Dir/PyRuntime.v; coq/Dir/Lines.v as hand transcription of the CONTROL STRUCTURE around the "
+              "regenerated arithmetic (_render_tokens / nested_render_text / render_directive / run_directive / MockState.nested_parse "
+              "/ MockIncludeDirective.run), checked by correspondence, not proved; oracles: markdown-it token maps and fence content "
+              "(O_map, O_fence_content), docutils container directives calling nested_parse(content, content_offset, node) (O_adm), "
+              "the option tokenizer (Section variable, instantiated with the C07 model in C04_lines_nested_c07), O_parse_ok "
+              "(discharged by C04_parse_ok_when). Search-only (no model): definition / field lists, footnotes, front matter, "
+              "figure / code-block / table / list-table / line-block / parsed-literal / rubric / topic / sidebar / contents / role / "
+              "meta / image directives. Repaired in this project: 601d16e, 451703c, 533529a, 7c23797, 40616da, 848582d, dae8d66; six "
+              "open findings (listed above), none hidden: a deviation is attributed to a finding only if it equals exactly what the "
+              "characterising theorem predicts for the construct's chain of enclosing contexts.")
